@@ -109,6 +109,68 @@ def ecdsa_case(maxlen):
                 {"blob": "valid name + 0..%d symbolic bytes, or <=8 arbitrary bytes" % maxlen}, max_paths=200000)
 
 
+def ecdsa_integers_case():
+    """a well-formed ECDSA signature blob whose two integers are arbitrary mpints: what reaches the library is exactly
+    the pair the blob encodes (RFC 4251 two's complement), and a negative integer is never turned into a valid one"""
+    def fn(ctx):
+        import struct
+        import paramiko.message as PM
+        import paramiko.util as PU
+        import paramiko.ecdsakey as EK
+        from cryptography.exceptions import InvalidSignature
+        nr, ns = ctx.choice("len(r)", [1, 2, 3]), ctx.choice("len(s)", [1, 2])
+        rb, sb = ctx.bytes("r-bytes", nr), ctx.bytes("s-bytes", ns)
+        good = ctx.flag("library-says-valid")
+
+        def ref(bs):
+            v = 0
+            for x in (bs.items if type(bs) is SBytes else list(bs)):
+                v = v * 256 + lift(x)
+            first = lift((bs.items if type(bs) is SBytes else list(bs))[0])
+            return v - (256 ** len(bs) if bool(first >= 128) else 0)
+        want_r, want_s = ref(rb), ref(sb)
+        seen = []
+
+        class VK:
+            def verify(self, signature, data, alg):
+                if not good:
+                    raise InvalidSignature()
+
+        def enc(r, s):
+            seen.append((r, s))
+            if bool(lift(r) < 0) or bool(lift(s) < 0):
+                raise ValueError("Negative integers are not supported")
+            return b"der"
+        inner_len = 4 + nr + 4 + ns
+        pre = b"\x00\x00\x00\x13ecdsa-sha2-nistp256" + struct.pack(">I", inner_len) + struct.pack(">I", nr)
+        mid = struct.pack(">I", ns)
+        if ctx.symbolic:
+            blob = SBytes(list(pre)) + rb + SBytes(list(mid)) + sb
+        else:
+            blob = pre + bytes(rb) + mid + bytes(sb)
+        k = EK.ECDSAKey.__new__(EK.ECDSAKey)
+        k.verifying_key = VK()
+        k.ecdsa_curve = EK.ECDSAKey._ECDSA_CURVES.get_by_key_format_identifier("ecdsa-sha2-nistp256")
+        k.public_blob = None
+        with patched([(EK, "encode_dss_signature", enc)]):
+            with ctx.patches(std_patches(PM, PU, builtins=("int",))):
+                try:
+                    res = k.verify_ssh_sig(b"data", PM.Message(blob))
+                except Exception as e:      # noqa
+                    ctx.prove(False, "raises:" + exc_key(e)[4:])
+                    return
+        negative = bool(lift(want_r) < 0) or bool(lift(want_s) < 0)
+        if seen:
+            ctx.prove((lift(seen[0][0]) == want_r) & (lift(seen[0][1]) == want_s), "library-gets-exactly-the-integers-the-blob-encodes")
+        if negative:
+            ctx.prove(res is False, "negative-integer=>not-a-valid-signature")
+        else:
+            ctx.prove(len(seen) == 1 and res is good, "verdict-is-the-library's-verdict-on-these-integers")
+    return Case("ecdsa-integers", fn, ["library-gets-exactly-the-integers-the-blob-encodes", "negative-integer=>not-a-valid-signature",
+                                       "verdict-is-the-library's-verdict-on-these-integers"],
+                {"r": "1..3 symbolic bytes (any sign, any padding)", "s": "1..2 symbolic bytes"})
+
+
 def ed25519_case(maxlen):
     def fn(ctx):
         import paramiko.message as PM
@@ -145,4 +207,4 @@ def ed25519_case(maxlen):
 def cases(tier):
     _probe_contracts()
     k = 10 if tier == "quick" else 16
-    return [rsa_case(k + 4), ecdsa_case(k), ed25519_case(k)]
+    return [rsa_case(k + 4), ecdsa_case(k), ed25519_case(k), ecdsa_integers_case()]
